@@ -5,12 +5,6 @@ hypotheses.  `stepLocal_iff` proves the two coincide, so case analyses on local 
 be done with `cases` instead of unfolding the function each time. -/
 namespace TaskModel.Sched.S2
 
-/-- the error a failing dependency group gives the task: an exit status is wrapped for a direct call -/
-def depErr (indirect : Bool) (r : Res) : Res :=
-  match r with
-  | .exit n => if indirect then Res.exit n else Res.run (.exit n)
-  | r => r
-
 inductive LStep (F : Flags) (o : Obs) (x : Act) : Ev → Act → Eff → Prop
   | exitEarly (hp : x.phase = .early) : LStep F o x .exit { x with phase := .done } .none
   | acquire (hp : x.phase = .entered) (hc : o.capFree = true) :
@@ -20,8 +14,8 @@ inductive LStep (F : Flags) (o : Obs) (x : Act) : Ev → Act → Eff → Prop
   | waiter (k : Nat) (hp : x.phase = .acquired) (hr : x.def_.run ≠ .always) (hk : o.registered k = true) :
       LStep F o x (.waiter k) { x with phase := .wWaiting, waitsFor := some k } .none
   | wRelease (hp : x.phase = .wWaiting) : LStep F o x .wRelease { x with phase := .wReleased, holds := false } .rel
-  | wWake (r : Res) (hp : x.phase = .wReleased) (he : o.execResult () = some r) :
-      LStep F o x .wWake { x with phase := .wWoken, res := r } .none
+  | wWake (r : Outcome) (hp : x.phase = .wReleased) (he : o.execResult () = some r) :
+      LStep F o x .wWake { x with phase := .wWoken, res := wrapFor x.indirect r, out := r } .none
   | wReacq (hp : x.phase = .wWoken) (hc : o.capFree = true) :
       LStep F o x .wReacq { x with phase := .finished, holds := true } .acq
   | depsReleaseA (hp : x.phase = .acquired) (hr : x.def_.run = .always) :
@@ -35,7 +29,7 @@ inductive LStep (F : Flags) (o : Obs) (x : Act) : Ev → Act → Eff → Prop
       LStep F o x (.depsDone r) { x with phase := .guards } .none
   | depsDoneFail (r : Res) (rs : List Res) (hp : x.phase = .depsJoined) (hd : o.deps () = some rs)
       (hr : r.isOk = false) (hm : rs.contains r = true) :
-      LStep F o x (.depsDone r) (x.stop (depErr x.indirect r)) .none
+      LStep F o x (.depsDone r) (x.stopDeps r) .none
   | ctxErr (hp : x.phase = .guards) (hc : o.cancelled () = true) : LStep F o x .ctxErr (x.stop .ctx) .none
   | precondFail (hp : x.phase = .guards) (hc : (!x.def_.precondOk || o.cancelled ()) = true) :
       LStep F o x .precondFail (x.stop .generic) .none
@@ -120,18 +114,9 @@ theorem LStep_of_stepLocal (F : Flags) (o : Obs) (x : Act) (ev : Ev) (y : Act) (
   -- depsDone ok
   · rename_i hd hr ha
     exact LStep.depsDoneOk _ _ hph hd hr ha
-  -- depsDone: a dependency failed (three shapes of the error)
-  · rename_i hd _ _ hr hm hi
-    have := LStep.depsDoneFail (F := F) (o := o) (x := x) _ _ hph hd (by simpa using hr) hm
-    simpa [depErr, hi] using this
-  · rename_i hd _ _ hr hm hi
-    have := LStep.depsDoneFail (F := F) (o := o) (x := x) _ _ hph hd (by simpa using hr) hm
-    simpa [depErr, hi] using this
-  · rename_i r _ _ hd hr hm _ hne
-    have := LStep.depsDoneFail (F := F) (o := o) (x := x) _ _ hph hd (by simpa using hr) hm
-    have e : depErr x.indirect r = r := by
-      cases r <;> first | rfl | exact absurd rfl (hne _)
-    rw [e] at this; exact this
+  -- depsDone: a dependency failed
+  · rename_i hd hr hm
+    exact LStep.depsDoneFail _ _ hph hd (by simpa using hr) hm
   -- cmdStart (body)
   · rename_i seen d _ _ _ _ hr hc
     simp only [Bool.and_eq_true, decide_eq_true_eq, Bool.not_eq_true', Option.isNone_iff_eq_none] at hc
@@ -210,9 +195,10 @@ theorem LStep_of_stepLocal (F : Flags) (o : Obs) (x : Act) (ev : Ev) (y : Act) (
 set_option maxHeartbeats 1000000 in
 theorem stepLocal_of_LStep (F : Flags) (o : Obs) (x : Act) (ev : Ev) (y : Act) (eff : Eff)
     (h : LStep F o x ev y eff) : stepLocal F o x ev = some (y, eff) := by
-  cases h <;> simp_all [stepLocal, depErr]
-  · rename_i r _ _ _ _ _
-    cases r <;> rfl
+  cases h with
+  | wWake r hp he => unfold stepLocal; rw [hp]; simp only [he]
+  | _ => ?_
+  all_goals simp_all [stepLocal]
   · rename_i hs
     intro h1 h2 h3
     rcases hs with h | h | h | h
